@@ -170,7 +170,7 @@ func c02Malformed(c *mon.Ctx, A *signedTok, name string, pk crypto.PublicKey) {
 }
 
 func runC02(c *mon.Ctx) {
-	c.Rule("for each of ES256/384/512, EdDSA, PS256/384/512 with fresh keys x valid claims-sets of both profiles and a P2 extension, the token produced by the real ValidateAndSign is (1) accepted unmodified under the signer's key (positive control), then attacked - each mutant once through a fresh DecodeEvidenceFromCOSE and once through ONE REUSED Evidence object that has just decoded and verified the original token - with: every single-bit flip; every truncation; 1-8 trailing bytes; splices of protected/payload/signature between two tokens (same key/other payload, other key, other algorithm); signature := random bytes (same / other length), zeros, empty, signature of another message; 2-8 random byte substitutions, random insertions and deletions; algorithm moved to the unprotected header with a signature that is valid for that layout; empty protected header; protected header without label 1; nil payload with a signature valid over the empty payload; signature := well-formed DER ECDSA signatures (of nothing, of random integers, of another message); signature := the same integers in another octet form (a token is signed until r, s or the RSA integer starts with a zero octet, which is then dropped; zero octets prepended / appended); the payload re-serialised into other bytes of the same meaning (tags in front, non-minimal / indefinite map head, other key order, extra unknown key, bstr-wrapped) with the original protected header and signature; the protected header re-serialised into other bytes of the same meaning (non-minimal label / value / map head, indefinite map, extra label, tag) with the original payload and signature; and verification under every other key (same algorithm, other curve/type, nil, non-key values) and under malformed key objects of the right Go type (empty / short / long Ed25519 key, zero-value and nil ECDSA / RSA keys; a panic below the library is counted, a nil error is a violation). Oracle: decode+Verify may only succeed if the independent reader finds payload, protected-header content and signature byte-identical to the signed token and the key is the signer's (NO-VERDICT, counted), or if the independent stdlib verifier itself finds the signature valid for that content and key; Verify must never succeed without protected alg / payload / signature. distinct_nontrivial = distinct (algorithm, profile, mutation class, position bucket) signatures")
+	c.Rule("for each of ES256/384/512, EdDSA, PS256/384/512 with fresh keys x valid claims-sets of both profiles and a P2 extension, the token produced by the real ValidateAndSign is (1) accepted unmodified under the signer's key (positive control), then attacked - each mutant once through a fresh DecodeEvidenceFromCOSE and once through ONE REUSED Evidence object that has just decoded and verified the original token - with: every single-bit flip; every truncation; 1-8 trailing bytes; splices of protected/payload/signature between two tokens (same key/other payload, other key, other algorithm); signature := random bytes (same / other length), zeros, empty, signature of another message; 2-8 random byte substitutions, random insertions and deletions; algorithm moved to the unprotected header with a signature that is valid for that layout; empty protected header; protected header without label 1; nil payload with a signature valid over the empty payload; signature := well-formed DER ECDSA signatures (of nothing, of random integers, of another message); signature := the same integers in another octet form (a token is signed until r, s or the RSA integer starts with a zero octet, which is then dropped; zero octets prepended / appended); signature := the same octets rearranged (whole / each half reversed, halves swapped, complemented, bit-reversed, rotated, one half doubled); the payload re-serialised into other bytes of the same meaning (tags in front, non-minimal / indefinite map head, other key order, extra unknown key, bstr-wrapped) with the original protected header and signature; the protected header re-serialised into other bytes of the same meaning (non-minimal label / value / map head, indefinite map, extra label, tag) with the original payload and signature; and verification under every other key (same algorithm, other curve/type, nil, non-key values) and under malformed key objects of the right Go type (empty / short / long Ed25519 key, zero-value and nil ECDSA / RSA keys; a panic below the library is counted, a nil error is a violation). Oracle: decode+Verify may only succeed if the independent reader finds payload, protected-header content and signature byte-identical to the signed token and the key is the signer's (NO-VERDICT, counted), or if the independent stdlib verifier itself finds the signature valid for that content and key; Verify must never succeed without protected alg / payload / signature. distinct_nontrivial = distinct (algorithm, profile, mutation class, position bucket) signatures")
 	if err := extprof.Register(extprof.ExtP2Name); err != nil {
 		c.Violation("harness/register", err.Error(), nil)
 		return
@@ -377,6 +377,38 @@ func runC02(c *mon.Ctx) {
 				c02Judge(c, "signature-renumbered", Z, sign1Bytes(Z.env.ProtectedBS, nil, Z.env.Payload, v), k.Pub, true, map[string]any{"variant": vi, "signature_len": len(sg), "mutant_signature_len": len(v)})
 			}
 			c.Sig(base + "|signature-renumbered")
+		}
+		// (5e) the signature octets in another ARRANGEMENT (a verifier that
+		// retries with another byte order / layout accepts these)
+		{
+			sg := A.env.Signature
+			half := len(sg) / 2
+			rev := func(b []byte) []byte {
+				o := make([]byte, len(b))
+				for i := range b {
+					o[len(b)-1-i] = b[i]
+				}
+				return o
+			}
+			cat := func(x, y []byte) []byte { return append(append([]byte{}, x...), y...) }
+			compl := make([]byte, len(sg))
+			bitrev := make([]byte, len(sg))
+			for i, b := range sg {
+				compl[i] = ^b
+				var r byte
+				for k := 0; k < 8; k++ {
+					r |= (b >> uint(k) & 1) << uint(7-k)
+				}
+				bitrev[i] = r
+			}
+			rot := cat(sg[1:], sg[:1])
+			for vi, v := range [][]byte{rev(sg), cat(rev(sg[:half]), rev(sg[half:])), cat(sg[half:], sg[:half]), cat(rev(sg[half:]), rev(sg[:half])), compl, bitrev, rot, cat(sg[:half], sg[:half]), cat(sg[half:], sg[half:])} {
+				if bytes.Equal(v, sg) {
+					continue
+				}
+				c02Judge(c, "signature-rearranged", A, sign1Bytes(A.env.ProtectedBS, nil, A.env.Payload, v), k.Pub, true, map[string]any{"variant": vi})
+			}
+			c.Sig(base + "|signature-rearranged")
 		}
 		// (5c) the PAYLOAD re-serialised into other bytes (tags in front, non-minimal
 		// map head, indefinite map, other key order, an extra unknown key), original
